@@ -210,6 +210,9 @@ def render_property_module(case: dict) -> str:
                 emit(it["body"], indent + "    ")
 
     emit(case["classes"], "")
+    # an empty subclass per top-level class: the inherited view of the same properties (CPython: the very same property object)
+    for cls in case["classes"]:
+        lines.append(f"class S{cls['name']}({cls['name']}): pass")
     return "\n".join(lines) + "\n"
 
 
